@@ -135,10 +135,10 @@ def bounded(ctx):
     logging.disable(logging.CRITICAL)
     quick = ctx["tier"] == "quick"
     B = Bounded(ctx, rule="ncs.build.render_template on the two shipped templates + create, for EVERY configuration: root template: the 7 non-empty subsets of {radio, application, top} "
-                          "x {default, custom-all, custom-radio-vendor-only, custom-app-only} MPI names x {no version variables, DEFAULT_* only, APP_ROOT_* and DEFAULT_*}; top template: "
+                          "x {default, custom-all, custom-radio-vendor-only, custom-app-only, custom-mixed-case-and-non-ascii} MPI names x {no version variables, DEFAULT_* only, APP_ROOT_* and DEFAULT_*}; top template: "
                           "its image set x 3 version settings; children sampled (digest algorithm sha-256/384/512, with/without severed text, random contents); the created envelope is "
                           "checked by an independent interpreter (component indices, dependency kinds, fetched URIs vs integrated dependencies and verified digests, class ids); "
-                          "distinct by configuration", bound="configuration space complete (7 x 4 x 3 + 3); 1 (quick) / 6 (thorough) child samples per configuration", budget_s=120 if quick else 900)
+                          "distinct by configuration", bound="configuration space complete (7 x 5 x 3 + 3); 1 (quick) / 6 (thorough) child samples per configuration", budget_s=120 if quick else 900)
     sys_path_repo = front.REPO
     build = importlib.import_module("ncs.build")
     create = importlib.import_module("suit_generator.cmd_create")
@@ -153,6 +153,7 @@ def bounded(ctx):
         "custom-all": {"ROOT": ("acme.com", "acme_root"), "APP_LOCAL_1": ("acme.com", "acme_app"), "RAD_LOCAL_1": ("radio-vendor.org", "acme_rad")},
         "custom-radio-vendor-only": {"RAD_LOCAL_1": ("radio-vendor.org", "nRF54H20_sample_rad")},
         "custom-app-only": {"APP_LOCAL_1": ("app-vendor.io", "my_app")},
+        "custom-mixed-case-and-non-ascii": {"ROOT": ("ACME.Example", "Root Class"), "APP_LOCAL_1": ("Acme-Corp.example", "App_é"), "RAD_LOCAL_1": ("RadioWorks.IO", "RAD")},
     }
     VERS = {"none": {}, "default-only": {"DEFAULT_SEQ_NUM": 16909056, "DEFAULT_VERSION": "1.2.3"}, "explicit-and-default": {"DEFAULT_SEQ_NUM": 5, "DEFAULT_VERSION": "0.0.5-rc.1", "APP_ROOT_SEQ_NUM": 77, "APP_ROOT_VERSION": "7.7.0",
                                                                                                             "NORDIC_TOP_SEQ_NUM": 78, "NORDIC_TOP_VERSION": "7.8.0-alpha"}}
